@@ -590,7 +590,15 @@ fn drive<R: role::RoleType>(rng: &mut Rng, role_n: u64, ver: u64, bias: u64, abu
                     }
                 } else if rng.chance(3, 4) {
                     let cv = if ver == 0 && rng.chance(1, 10) { 3 } else { wv };
-                    let mut b = bytes_of(&mk_connect(rng, if cv == 3 { 4 } else { cv }));
+                    let stored = run.conn.as_ref().unwrap().get_stored_packets();
+                    let cp = if cv == 5 && !stored.is_empty() && (bias == 6 || bias == 14) && rng.chance(1, 3) {
+                        let sp: Packet = stored[rng.below(stored.len() as u64) as usize].clone().into();
+                        let m = (sp.size() as i64 + rng.range(0, 2) as i64 - 1).max(1) as u32;
+                        mk_connect_mps(rng, m)
+                    } else {
+                        mk_connect(rng, if cv == 3 { 4 } else { cv })
+                    };
+                    let mut b = bytes_of(&cp);
                     if cv == 3 && b.len() > 8 {
                         b[8] = 3; // unsupported protocol level
                     }
@@ -621,9 +629,16 @@ fn drive<R: role::RoleType>(rng: &mut Rng, role_n: u64, ver: u64, bias: u64, abu
                                 };
                             }
                         }
+                        // resume with a Maximum Packet Size right at the size of a stored packet (limit is inclusive)
+                        let stored = run.conn.as_ref().unwrap().get_stored_packets();
+                        if wv == 5 && !stored.is_empty() && (bias == 6 || bias == 14) && rng.chance(1, 3) {
+                            let sp: Packet = stored[rng.below(stored.len() as u64) as usize].clone().into();
+                            let m = (sp.size() as i64 + rng.range(0, 2) as i64 - 1).max(1) as u32;
+                            p = mk_connack_mps(rng, true, m);
+                        }
                         let b = bytes_of(&p);
                         let b = if rng.chance(1, 15) { mutate(rng, b) } else { b };
-                        if !run.conn.as_ref().unwrap().get_stored_packets().is_empty() {
+                        if !stored.is_empty() {
                             st.resumes += 1;
                         }
                         feed(&mut run, rng, b, &mut g, &mut st, abuse);
@@ -632,7 +647,7 @@ fn drive<R: role::RoleType>(rng: &mut Rng, role_n: u64, ver: u64, bias: u64, abu
                     } else {
                         peer_traffic(&mut run, rng, &mut g, &s, wv, bias, &mut st, abuse, &small_ids);
                     }
-                } else if rng.chance(3, 4) {
+                } else if rng.chance(if bias == 13 { 1 } else { 3 }, if bias == 13 { 2 } else { 4 }) {
                     let p = mk_connack(rng, wv);
                     run.apply(&Op::Send(p), &mut st);
                 } else if rng.chance(1, 2) {
@@ -817,7 +832,9 @@ fn peer_traffic<R: role::RoleType>(
         }
     } else if roll < 70 {
         let qos = *rng.pick(&[0u8, 1, 2, 2]);
-        let id = if bias == 7 { *rng.pick(&[1u64, 2]) } else { *rng.pick(small_ids) };
+        let id = if bias == 7 || bias == 13 { *rng.pick(&[1u64, 2]) } else { *rng.pick(small_ids) };
+        // bias 13: retransmissions of handled QoS 2 publishes (they may carry alias bindings too)
+        let id = if bias == 13 && !s.qos2_publish_handled.is_empty() && rng.chance(1, 3) { s.qos2_publish_handled[0] } else { id };
         let id = if rng.chance(1, 30) { 0 } else { id };
         if id == 0 && qos > 0 {
             // packet id 0 on the wire: cannot be built, craft the bytes
